@@ -82,7 +82,7 @@ fn rows_for<'a>(forms: &'a [Form], prop: &str) -> Vec<&'a Form> {
 fn knobs_for(prop: &str) -> Knobs {
     let base = Knobs {
         drv: prop.to_string(),
-        uppers: vec![0],
+        uppers: vec![0, 0x80, 0, 0x5a, 0, 0xff],
         pool: Pool::Plain,
         io8: false,
         pcs: pcs_default(),
@@ -95,7 +95,8 @@ fn knobs_for(prop: &str) -> Knobs {
         "C05" | "C06" => Knobs { uppers: vec![0, 0, 0x01, 0x80, 0xff, 0x5a], ..base },
         "C08" => Knobs { uppers: vec![0x00, 0x01, 0x7f, 0x80, 0xff, 0x5a, 0xa5], pool: Pool::Edges, ..base },
         "C09" => Knobs { pool: Pool::Edges, odd_ea: true, ..base },
-        "C20" => Knobs { bus: BUS_SETTINGS.to_vec(), pcs: vec![0xffc000, 0x400000, 0x41a000, 0xffe100, 0x5ff000], ..base },
+        // C20 also instantiates data register = address register for @ERn+ / @-ERn (the charge is defined even there)
+        "C20" => Knobs { bus: BUS_SETTINGS.to_vec(), pcs: vec![0xffc000, 0x400000, 0x41a000, 0xffe100, 0x5ff000], avoid_overlap: false, ..base },
         _ => base,
     }
 }
